@@ -24,6 +24,16 @@ def sliceFrom (b : Bytes) (lo : Int) : Res Bytes :=
 def sliceTo (b : Bytes) (hi : Int) : Res Bytes :=
   if hi < 0 ∨ hi > b.length then .panic else .ok (b.take hi.toNat)
 
+/-- `b[lo:hi]` -/
+def slice (b : Bytes) (lo hi : Int) : Res Bytes :=
+  if lo < 0 ∨ hi < lo ∨ hi > b.length then .panic else .ok ((b.drop lo.toNat).take (hi.toNat - lo.toNat))
+
+/-- `make([]byte, n)`: panics on a negative length -/
+def makeBytes (n : Int) : Res Bytes := if n < 0 then .panic else .ok (List.replicate n.toNat 0)
+
+/-- `a % b` on `int`: the remainder of truncated division (sign of the dividend) -/
+def irem (a b : Int) : Int := Int.tmod a b
+
 def band (a b : Nat) : Nat := a &&& b
 def bor (a b : Nat) : Nat := a ||| b
 def shr (a k : Nat) : Nat := a >>> k
